@@ -21,7 +21,7 @@ HANG_S = 400
 PRIM = ("sphere", "capsule", "box", "ellipsoid", "cylinder")
 SMOOTH = ("sphere", "ellipsoid", "capsule", "cylinder", "cone", "disk", "ellipse")
 CLASS_P = {"gap": .1, "touch": .14, "overlap": .1, "deep": .08, "same": .08, "copy": .08, "nested": .1, "lattice": .14,
-           "parallel": .06, "free": .02, "far": .04, "coplanar": .06}
+           "parallel": .05, "free": .02, "far": .04, "coplanar": .05, "feature": .12}
 RULE = ("one case = one collider pair from the hostile classes (same object twice, equal copy, nested, lattice, touching, "
         "coplanar, far; 20% needle/flat aspect ratios 1e2..1e4; 30% of vertex hulls zero-volume: single vertex, segment, planar "
         "polygon) on which EVERY narrow-phase entry point is executed: gjk_distance_jolt, gjk_intersection_jolt, "
@@ -32,7 +32,7 @@ RULE = ("one case = one collider pair from the hostile classes (same object twic
         "returned number, exception type. non-trivial = class is not free/far; distinct = distinct scene hashes")
 ASSUMPTIONS = ["a support evaluation = one call of collider.support_function (proxy) or of the Nesterov module's pair support function",
                "EPA AssertionError (polytope capacity) is accepted only when a smooth shape is involved"]
-MIN_EVENTS = {"calls": 20000, "support_evaluations": 200000, "epa_calls": 300, "self_collision_runs": 100}
+MIN_EVENTS = {"calls": 20000, "support_evaluations": 200000, "epa_calls": 300, "self_collision_runs": 100, "cap_stress_calls": 4000}
 
 
 def cases(tier):
@@ -191,6 +191,10 @@ def run_case(rng, idx, tier):
                          "msg": "nesterov iterations helper %s != tuple field %s" % (i1, i2)})
     except Exception:  # noqa: BLE001
         pass
+    # ---- iteration-cap stress: the documented caps (max_iterations / max_iter / max_interations) are the
+    # mechanism that bounds the capped loops; run them with a tiny cap and attribute the work to phases
+    if idx % 2 == 0:
+        _cap_stress(A, B, sA, sB, r_jolt, ev, viol, key0, names, cls)
     # self collision on a small BVH of proxied colliders
     if idx % 8 == 0:
         _self_collision(rng, sA, sB, ev, viol, worst, key0)
@@ -235,3 +239,60 @@ def _self_collision(rng, sA, sB, ev, viol, worst, key0):
     except Exception as e:  # noqa: BLE001
         viol.append({"key": dict(key0, fn="self_collision", kind="exception", exc=type(e).__name__), "err": None,
                      "msg": "self_collision.detect on %d colliders raised %s: %s" % (len(specs), type(e).__name__, str(e)[:200])})
+
+
+def _cap_stress(A, B, sA, sB, r_jolt, ev, viol, key0, names, cls):
+    from distance3d import gjk, mpr, minkowski, epa as epa_mod
+    M = 2
+
+    def over(fn, phase, n, bound):
+        viol.append({"key": dict(key0, fn=fn, kind="iteration-cap-not-enforced", phase=phase), "err": float(n),
+                     "msg": "%s(%s,%s) [%s] with cap %d: %d support-point queries in phase '%s' (bound %d)" % (
+                         fn, names[0], names[1], cls, M, n, phase, bound)})
+
+    fns = {"discover": mpr._discover_portal, "refine": mpr._refine_portal, "peninfo": mpr._find_penetration_info,
+           "sup": minkowski.support_function}
+    for fn, call in (("mpr_penetration", lambda: mpr.mpr_penetration(A, B, max_iterations=M)),
+                     ("mpr_intersection", lambda: mpr.mpr_intersection(A, B, max_iterations=M))):
+        try:
+            with monitors.PhaseCounter(fns) as pc:
+                call()
+        except Exception:  # noqa: BLE001  (results under a tiny cap are unspecified; exceptions are judged with default caps)
+            pass
+        ph = pc.per_phase(("discover", "refine", "peninfo"), "sup")
+        ev["cap_stress_calls"] = ev.get("cap_stress_calls", 0) + 1
+        if ph.get("discover", 0) > 2 + M:
+            over(fn, "portal discovery", ph["discover"], 2 + M)
+        if ph.get("peninfo", 0) > M + 2:
+            over(fn, "penetration info", ph["peninfo"], M + 2)
+    pa = monitors.Counted(A, LIMIT); pb = pa if B is A else monitors.Counted(B, LIMIT)
+    try:
+        gjk.gjk_intersection_libccd(pa, pb, max_iterations=M)
+    except Exception:  # noqa: BLE001
+        pass
+    ev["cap_stress_calls"] += 1
+    n = pa.n + (0 if pb is pa else pb.n)
+    if n > 2 * M:
+        over("gjk_intersection_libccd", "main loop", n, 2 * M)
+    if r_jolt is not None and r_jolt[0] == 0.0 and r_jolt[3] is not None and np.all(np.isfinite(np.asarray(r_jolt[3], float))):
+        pa = monitors.Counted(A, LIMIT); pb = pa if B is A else monitors.Counted(B, LIMIT)
+        try:
+            epa_mod.epa(np.array(r_jolt[3], dtype=float), pa, pb, max_iter=M)
+        except Exception:  # noqa: BLE001
+            pass
+        ev["cap_stress_calls"] += 1
+        n = pa.n + (0 if pb is pa else pb.n)
+        if n > 2 * M:
+            over("epa", "main loop", n, 2 * M)
+    for acc in (False, True):
+        try:
+            it = gjk.gjk_nesterov_accelerated(A, B, max_interations=3, use_nesterov_acceleration=acc)[3]
+            ev["cap_stress_calls"] += 1
+            if it > 3:
+                over("gjk_nesterov_accelerated", "main loop", it, 3)
+            if sA["kind"] in PRIM and sB["kind"] in PRIM:
+                it = gjk.gjk_nesterov_accelerated_primitives(A, B, max_interations=3, use_nesterov_acceleration=acc)[3]
+                if it > 3:
+                    over("gjk_nesterov_accelerated_primitives", "main loop", it, 3)
+        except Exception:  # noqa: BLE001
+            pass
